@@ -302,13 +302,19 @@ func genSizeCases(r *common.Rand, n int) {
 				for i := range s.Outs {
 					s.Outs[i].Sats = uint64(r.Intn(2000))
 				}
-				big := []uint64{1<<63 + 5000, 1<<63 + 1, 1 << 63, 1<<64 - 70000, 1<<63 - 1}[r.Intn(5)]
+				huge := []uint64{1<<63 + 5000, 1<<63 + 1, 1 << 63, 1<<64 - 70000, 1<<63 - 1}[r.Intn(5)]
 				if r.Bool() {
-					s.Ins[0].Sats = big
+					s.Ins[0].Sats = huge
 					kind += "/inputs-exceed-outputs-by-2^63"
 				} else {
-					s.Outs[0].Sats = big
+					s.Outs[0].Sats = huge
 					kind += "/outputs-exceed-inputs-by-2^63"
+				}
+				// the other amounts may push a total past 2^64 after all, or the outputs plus any fee may (the
+				// theorems' no-overflow hypothesis bounds outputs + fee; 2^44 is far above any fee generated here)
+				margin := new(big.Int).Add(feegen.SumOut(s), new(big.Int).Lsh(big.NewInt(1), 44))
+				if feegen.SumIn(s).BitLen() > 64 || margin.BitLen() > 64 {
+					kind, hyp = "total-wrap", false
 				}
 			}
 		}
